@@ -41,7 +41,7 @@ def make_case(cid, rng, schema, n_ops, code, shaped=None, norow=False):
         if op["op"] in MUTATING:
             # every third call is failed where its statements are compiled (sqlite3_prepare_v2) rather than where they are stepped
             full.append({"op": "fault_sweep", "inner": op, "code": code, "max_k": 600, "keep_going": True, "stored": True,
-                         "at_prepare": len(full) % 3 == 2})
+                         "at_prepare": len(full) % 3 == 2, "unwinding": len(full) % 4 == 1})
             if norow and op["op"] == "create_track" and not dropped:
                 # 1.x: the first track as Engine leaves one it has imported but not analysed - no performance-data row at all
                 full.append({"op": "raw_exec", "sql": "DELETE FROM PerformanceData WHERE id = (SELECT MIN(id) FROM Track)"})
@@ -151,6 +151,8 @@ def judge_case(ctx, res):
             ctx.count()
             ctx.bump("faults_fired")
             ctx.bump_in("faults_by_call", od)
+            if op.get("unwinding"):
+                ctx.bump("faults_in_calls_made_while_an_exception_unwinds")
             sq = (run.get("sql") or "").strip()
             ctx.bump_in("faults_by_site", "prepare" if sq.startswith("[prepare]") else "step")
             sqlk = sq.replace("[prepare] ", "").split(" ")[0].upper()
